@@ -13,7 +13,7 @@ NOT_VIEW = {'node_id': 'the key', 'updated_at': 'receiver-local wall clock, not 
 
 
 def r17a(ctx, rep, cr):
-    rep.rule('R17a', 'GossipNodeState::supersedes reads, on both operands, every replicated observable field of the state '
+    rep.rule('R17a', 'the newer-wins decision of merge (GossipNodeState::supersedes, plus any tie-break in merge\'s decision closure) reads, on both operands, every replicated observable field of the state '
                      '(health, incarnation, timestamp): if a field is not consulted, two states equal on the consulted fields and '
                      'different in it are mutually non-superseding and merge keeps whichever arrived first (not commutative)')
     adt = cr.adts.get(GS)
@@ -39,10 +39,24 @@ def r17a(ctx, rep, cr):
                 for x in A.place_fields(pl):
                     if x.startswith(GS + '.'):
                         reads[pl[0]].add(x.split('.')[-1])
-    # reads through helper calls (e.g. a rank function taking self.health)
+    # the tie-break may live in merge's decision closure instead of supersedes itself
+    merge_reads = {}
+    for h in A.with_closures(cr.fns, LW + '::merge'):
+        if h.name == LW + '::merge' or not A.calls_to(h, GS + '::supersedes'):
+            continue
+        for b in h.bbs:
+            if b['cleanup']:
+                continue
+            for st in b['s']:
+                for pl in A.rvalue_places(st[1]):
+                    for x in A.place_fields(pl):
+                        if x.startswith(GS + '.'):
+                            merge_reads.setdefault(x.split('.')[-1], set()).add(pl[0])
     for fld in VIEW_FIELDS:
         if fld in reads[1] and fld in reads[2]:
             rep.holds('R17a', f, fld, 'read on both operands')
+        elif len(merge_reads.get(fld, ())) >= 2:
+            rep.holds('R17a', f, fld, 'compared on both operands by the tie-break in merge\'s decision closure')
         else:
             rep.violation('R17a', f, 'ignores-' + fld, f.loc(),
                           'supersedes never compares `%s` (reads self:%s other:%s): two updates that tie on the compared fields but differ '
